@@ -15,6 +15,9 @@ pub struct C16;
 #[derive(Serialize, Deserialize, Clone, Debug)]
 pub enum C16Case {
     Pkg(PkgCase),
+    /// a package straight from the builder (value queried before any write/parse); `empty_prog`
+    /// gives the first scriptlet an explicitly empty interpreter list
+    Built { cfg: crate::gen::builder::BuilderConfig, empty_prog: bool },
     /// offsets are queried on the SAME package value before and after every operation
     History { base: u16, ops: Vec<Op> },
 }
@@ -33,7 +36,7 @@ impl Property for C16 {
         vec!["segment boundaries are recomputed from the written bytes by the reference decoder".into()]
     }
     fn required_labels(&self, _t: Tier) -> Vec<&'static str> {
-        vec!["accepted", "history", "pad-0", "pad-1", "pad-2", "pad-3", "pad-4", "pad-5", "pad-6", "pad-7", "il-0", "il-many"]
+        vec!["accepted", "built", "empty-interpreter-list", "history", "pad-0", "pad-1", "pad-2", "pad-3", "pad-4", "pad-5", "pad-6", "pad-7", "il-0", "il-many"]
     }
     fn phases(&self, tier: Tier) -> Vec<Phase<C16Case>> {
         vec![
@@ -45,17 +48,32 @@ impl Property for C16 {
             },
             Phase::Random {
                 name: "constructed",
-                cases: tier.pick(60_000, 1_200_000),
+                cases: tier.pick(60_000, 5_000_000),
                 strat: Arc::new(|| raw::raw_package(false).prop_map(|r| C16Case::Pkg(PkgCase::Raw(r))).boxed()),
             },
             Phase::Random {
                 name: "pool-mutated",
-                cases: tier.pick(20_000, 400_000),
+                cases: tier.pick(20_000, 2_000_000),
                 strat: Arc::new(|| mutated_pool(40_000, 2).prop_map(C16Case::Pkg).boxed()),
             },
             Phase::Random {
+                name: "built",
+                cases: tier.pick(1_500, 50_000),
+                strat: Arc::new(|| {
+                    use crate::gen::builder::*;
+                    (config_any_reuse(CfgParams { max_files: 4, sizes: size_small(), comp: comp_fast(), sign_prob: 0.3, file_kinds: true, force_large_prob: 0.1, rich_meta: true }), any::<bool>())
+                        .prop_map(|(mut cfg, empty_prog)| {
+                            if cfg.signer == Some(1) {
+                                cfg.signer = Some(0);
+                            }
+                            C16Case::Built { cfg, empty_prog }
+                        })
+                        .boxed()
+                }),
+            },
+            Phase::Random {
                 name: "sign-clear-histories",
-                cases: tier.pick(1_500, 30_000),
+                cases: tier.pick(1_500, 100_000),
                 strat: Arc::new(|| (proptest::sample::select(small_pool_indices(30_000)), proptest::collection::vec(prop_oneof![8 => op_cheap(), 1 => Just(Op::ClearSigInPlace), 1 => Just(Op::EmptySig)], 1..5)).prop_map(|(base, ops)| C16Case::History { base, ops }).boxed()),
             },
         ]
@@ -80,6 +98,25 @@ impl Property for C16 {
                 };
                 o.label("accepted");
                 check_offsets(&p, &mut o, "after parse");
+            }
+            C16Case::Built { cfg, empty_prog } => {
+                o.label("built");
+                let mut cfg = cfg.clone();
+                if *empty_prog {
+                    if let Some(sc) = cfg.scriptlets.first_mut() {
+                        sc.prog = Some(vec![]);
+                        o.label("empty-interpreter-list");
+                    }
+                }
+                match super::built::build_and_write(&cfg) {
+                    Ok(b) => {
+                        check_offsets(&b.pkg, &mut o, "built value");
+                        if let Ok(p) = rpm::Package::parse(&mut &b.bytes[..]) {
+                            check_offsets(&p, &mut o, "built, written and parsed");
+                        }
+                    }
+                    Err(_) => o.label("build-failed"),
+                }
             }
             C16Case::History { base, ops } => {
                 o.label("history");
